@@ -344,3 +344,5 @@ type CommitteeProbe struct {
 	Step  uint8
 	Limit int
 }
+
+func sortStrings(l []string) []string { sort.Strings(l); return l }
